@@ -35,6 +35,10 @@ CHECKS["C10"] = dict(cat="exploration", technique="exhaustive enumeration of a m
 CHECKS["C11"] = dict(cat="exploration", technique="exhaustive enumeration of the same module vocabulary plus non-finite/payload fp immediates through MIR_write / MIR_read, bit-exact API-level comparison",
              text="Every case is written twice through callbacks and once to a file (all three byte streams must be identical), read back in a fresh context, and compared: MIR_output text, every immediate and data byte bit for bit (NaN payloads, long doubles, strings with NULs), label attachment of lref items, and interpretation results of executable cases.",
              note="sizes from empty modules to 70000 names/labels and multi-buffer compressed images in the thorough tier; prod and asan builds", ref="§3 C11")
+CHECKS["C15"] = dict(cat="exploration", technique="exhaustive enumeration opcode x operand position x operand kind (full cross product) against a rule table transcribed from MIR.md",
+             text="For every 1-, 2- and 3-operand opcode every combination of 30 operand kinds (registers of each type, each immediate kind, memory of each of 15 types, label, references, string) at every position is built through the API in a fresh context; the error callback must fire exactly when the MIR.md rule table rejects the combination. "
+                  "Arity -1/+1 for every opcode and 40 scripted declaration / ret / call-prototype / overflow-branch / switch cases complete the space.",
+             note="rule table in checks/c15_illformed.c is independent of insn_descs[]; address-valued operands (refs, strings) in integer positions are counted as unconstrained; va_* and property insns outside the cross product", ref="§3 C15")
 NOT_YET = {}
 def main():
     props = [json.loads(l) for l in open(os.path.join(VERIF, "properties.jsonl"))]
